@@ -948,6 +948,24 @@ theorem run_obs (fixed : Bool) (evs : List (Nat × Msg)) (s s' : Server)
       · have hne : ¬ sock = k := fun e => hk e.symm
         simp [proj, List.filter_cons, hne, hother k hk]
 
+/-- messages a client sends between SEND_DIR_NAME and SEND_END -/
+def Msg.plain : Msg → Bool
+  | .dirName _ => false
+  | .end_ => false
+  | _ => true
+
+theorem foldl_ownStep_plain (ms : List Msg) (d : Dir) (st : List (Option Dir))
+    (hp : ∀ m ∈ ms, m.plain = true) :
+    ms.foldl ownStep (some d :: st) = some (ms.foldl dirStep d) :: st := by
+  induction ms generalizing d with
+  | nil => rfl
+  | cons m ms ih =>
+    have hm := hp m (List.mem_cons_self ..)
+    have h1 : ownStep (some d :: st) m = some (dirStep d m) :: st := by
+      cases m <;> simp [Msg.plain] at hm <;> rfl
+    simp only [List.foldl_cons, h1]
+    exact ih _ (fun x hx => hp x (List.mem_cons_of_mem _ hx))
+
 /-! ### interleavings -/
 
 /-- merge two event lists; `true` takes from the first -/
